@@ -125,3 +125,71 @@ def record_all():
     with open(os.path.join(VERIF, 'anchors.json'), 'w') as f:
         json.dump(out, f, indent=1, sort_keys=True)
     return out
+
+
+# ---------------------------------------------------------------------------
+# line coverage of the anchored code during the correspondence / oracle run (sys.monitoring, PEP 669;
+# every location is disabled after its first hit, so the cost is negligible).  Reported in the
+# evidence: which share of the executable lines of each anchored function the run has executed, and
+# which lines it has not - a changed line that no case executes cannot be noticed by the tie.
+# ---------------------------------------------------------------------------
+import sys
+
+_hits = set()
+_TOOL = 1   # sys.monitoring.COVERAGE_ID
+
+
+def start_coverage():
+    mon = getattr(sys, 'monitoring', None)
+    if mon is None:
+        return False
+    try:
+        mon.use_tool_id(_TOOL, 'verif-anchors')
+    except ValueError:
+        return False
+    import tweakwcs
+    root = os.path.dirname(os.path.abspath(tweakwcs.__file__)) + os.sep
+
+    def on_line(code, line):
+        if code.co_filename.startswith(root):
+            _hits.add((code.co_filename, line))
+        return mon.DISABLE
+    mon.register_callback(_TOOL, mon.events.LINE, on_line)
+    mon.set_events(_TOOL, mon.events.LINE)
+    return True
+
+
+def stop_coverage():
+    mon = getattr(sys, 'monitoring', None)
+    if mon is None:
+        return
+    try:
+        mon.set_events(_TOOL, 0)
+        mon.register_callback(_TOOL, mon.events.LINE, None)
+        mon.free_tool_id(_TOOL)
+    except Exception:
+        pass
+
+
+def _code_lines(code):
+    out = {ln for _, _, ln in code.co_lines() if ln is not None and ln > code.co_firstlineno}
+    for c in code.co_consts:
+        if hasattr(c, 'co_lines'):
+            out |= _code_lines(c)
+    return out
+
+
+def coverage_report(pid):
+    """{anchor: {'lines': n, 'executed': k, 'not_executed': [line numbers]}} for the anchors of pid"""
+    rep = {}
+    for name in ANCHORS.get(pid, []):
+        try:
+            obj = inspect.unwrap(_resolve(name))
+            code = obj.__code__
+        except Exception:
+            rep[name] = {'lines': 0, 'executed': 0, 'not_executed': [], 'note': 'unresolved'}
+            continue
+        lines = _code_lines(code)
+        hit = {ln for fn, ln in _hits if fn == code.co_filename and ln in lines}
+        rep[name] = {'lines': len(lines), 'executed': len(hit), 'not_executed': sorted(lines - hit)}
+    return rep
